@@ -1,6 +1,791 @@
-//! C50 — not implemented yet.
-use mc_core::Ctx;
+//! C50 — objects are encapsulated by their blueprint.
+//!
+//! Script exploration: for every pairing of an *actor* (a Probe function / method: own blueprint, sibling
+//! blueprint of the same package, blueprint of another package, outer object, inner object, sibling inner
+//! blueprint) with a *victim* node it legitimately got hold of (an object it owns, an object moved into one of
+//! its key-value entries, an inner object, a bucket, a proof, an address reservation, a global component, an
+//! account, its own auth zone), every sequence of ≤ L system-API operations of the alphabet (drop, globalize with
+//! / without reservation, globalize with a self-allocated reservation, use of a reservation, new_object, call of
+//! the victim's own method, actor state handles SELF / OUTER, type queries) is executed as one real transaction
+//! (prefix-pruned: an operation that fails aborts the invocation, exactly as for real blueprints).
+//!
+//! Reference policy (written from the statement + the rule the engine documents at its check sites, O8):
+//!   drop:       only code of the object's own blueprint, or the outer object of an inner object; proofs: any holder;
+//!   create:     only blueprints of the actor's own package exist for `new_object`; an inner object only through its
+//!               outer object (or its own blueprint running inside that outer object);
+//!   globalize:  only code of the package that defines the object's blueprint, and only with a reservation made for
+//!               that package;
+//!   state:      actor handles resolve to the actor's own object (SELF) or its outer object (OUTER) only.
+//! Same-package cross-blueprint create/globalize, an inner blueprint reaching its outer object's state, and a
+//! sibling inner blueprint dropping an inner object of the same outer instance are informational.
+use crate::probe::*;
+use mc_core::{par_for, Ctx, Level, Local};
+use mc_ledger::*;
+use radix_substate_store_interface::interface::SubstateDatabaseExtensions;
+use serde_json::{json, Map};
 
-pub fn run(_ctx: Ctx) -> ! {
-    mc_core::machinery_error("C50: not implemented")
+#[derive(Clone, Copy, Debug, PartialEq, Eq)]
+enum PkgId {
+    P,
+    Q,
+    Resource,
+    Other,
+}
+
+#[derive(Clone, Debug)]
+struct ActorD {
+    name: &'static str,
+    pkg: PkgId,
+    bp: &'static str,
+    /// method of which global component / inner object (None = function)
+    recv: Option<Recv>,
+}
+
+#[derive(Clone, Copy, Debug, PartialEq, Eq)]
+enum Recv {
+    GA,
+    GB,
+    GX,
+    GO1,
+    GO2,
+    /// an inner object (blueprint = actor.bp) created under GO1 by the driver
+    InnerOfGO1,
+}
+
+#[derive(Clone, Debug, PartialEq, Eq)]
+enum VictimD {
+    /// a non-global object owned by the actor's frame; `outer`: Some(1|2) for inner objects of GO1 / GO2
+    Obj { pkg: PkgId, bp: &'static str, outer: Option<u8>, moved_into_kv: bool },
+    Bucket,
+    Proof,
+    Reservation { pkg: PkgId, bp: &'static str },
+    GlobalComp { pkg: PkgId, bp: &'static str },
+    Account,
+    OwnAuthZone,
+}
+
+/// abstract operations of the script alphabet
+#[derive(Clone, Copy, Debug, PartialEq, Eq)]
+enum K {
+    Drop,
+    Globalize,
+    GlobalizeWithOwnReservation,
+    UseAsReservation,
+    NewObjectOfVictimBp,
+    NewInner,
+    CallVictimMethod,
+    OpenSelf,
+    OpenOuter,
+    OpenSelfKv,
+    OpenOuterKv,
+    TypeQuery,
+}
+
+const ALPHABET: [K; 12] = [
+    K::Drop,
+    K::Globalize,
+    K::GlobalizeWithOwnReservation,
+    K::UseAsReservation,
+    K::NewObjectOfVictimBp,
+    K::NewInner,
+    K::CallVictimMethod,
+    K::OpenSelf,
+    K::OpenOuter,
+    K::OpenSelfKv,
+    K::OpenOuterKv,
+    K::TypeQuery,
+];
+
+#[derive(Clone, Debug, PartialEq, Eq)]
+enum Verdict {
+    /// success of this operation violates the property
+    Forbidden(&'static str),
+    /// failure of this operation violates the property (proof drop by its holder)
+    Required(&'static str),
+    /// statement silent / engine-documented deviation: counted only
+    Info(&'static str),
+    Permitted,
+    /// the victim is gone / the operation does not apply to this victim: whatever happens is not judged
+    Neutral,
+}
+
+struct W50 {
+    snap: Snap,
+    acct: ComponentAddress,
+    g: ResourceAddress,
+    pkg_p: PackageAddress,
+    pkg_q: PackageAddress,
+    ga: ComponentAddress,
+    gb: ComponentAddress,
+    gx: ComponentAddress,
+    go1: ComponentAddress,
+    go2: ComponentAddress,
+    /// root bytes of field 0 of the global components (state oracle)
+    root_state: Vec<(ComponentAddress, Option<Vec<u8>>)>,
+}
+
+fn p_blueprints() -> [&'static str; 5] {
+    [BP_A, BP_B, BP_OUTER, BP_INNER, BP_INNER2]
+}
+
+fn build_world() -> W50 {
+    let (mut sim, _probe) = new_probe_sim();
+    let acct = sim.new_account_advanced(OwnerRole::Fixed(AccessRule::AllowAll));
+    sim.load_account_from_faucet(acct);
+    let g = sim.create_freely_mintable_and_burnable_fungible_resource(OwnerRole::None, Some(dec!(100)), 0, acct);
+    let pkg_p = sim.publish_native_package(PROBE_P, package_p());
+    let pkg_q = sim.publish_native_package(PROBE_Q, package_q());
+    let mut new_component = |pkg: PackageAddress, bp: &str, marker: &str| -> ComponentAddress {
+        let ops = vec![
+            Op::NewObject { bp: bp.to_string(), lock0: false },
+            Op::CallProbeMethod {
+                recv: N::Reg(0),
+                method: "call".into(),
+                script: vec![Op::OpenField { obj: 0, idx: 0, mutable: true }, Op::FieldWrite(0, Val::Str(marker.into())), Op::FieldClose(0)],
+                pass: vec![],
+            },
+            Op::Globalize { node: N::Reg(0), reservation: None, cfg: GlobalizeCfg::simple(OwnerRole::None) },
+        ];
+        let m = ManifestBuilder::new().lock_fee_from_faucet().call_function(pkg, bp, "run", manifest_args!(script_bytes(&ops))).build();
+        sim.execute_manifest(m, vec![]).expect_commit_success().new_component_addresses()[0]
+    };
+    let ga = new_component(pkg_p, BP_A, "state-of-GA");
+    let gb = new_component(pkg_p, BP_B, "state-of-GB");
+    let gx = new_component(pkg_q, BP_X, "state-of-GX");
+    let go1 = new_component(pkg_p, BP_OUTER, "state-of-GO1");
+    let go2 = new_component(pkg_p, BP_OUTER, "state-of-GO2");
+    let mut w = W50 { snap: sim.create_snapshot(), acct, g, pkg_p, pkg_q, ga, gb, gx, go1, go2, root_state: vec![] };
+    for c in [ga, gb, gx, go1, go2] {
+        w.root_state.push((c, sim.substate_db().get_raw_substate(c.as_node_id(), MAIN_BASE_PARTITION, SubstateKey::Field(0))));
+    }
+    w
+}
+
+fn actors() -> Vec<ActorD> {
+    vec![
+        ActorD { name: "A.fn", pkg: PkgId::P, bp: BP_A, recv: None },
+        ActorD { name: "B.fn", pkg: PkgId::P, bp: BP_B, recv: None },
+        ActorD { name: "X.fn", pkg: PkgId::Q, bp: BP_X, recv: None },
+        ActorD { name: "Outer.fn", pkg: PkgId::P, bp: BP_OUTER, recv: None },
+        ActorD { name: "A.method(GA)", pkg: PkgId::P, bp: BP_A, recv: Some(Recv::GA) },
+        ActorD { name: "B.method(GB)", pkg: PkgId::P, bp: BP_B, recv: Some(Recv::GB) },
+        ActorD { name: "X.method(GX)", pkg: PkgId::Q, bp: BP_X, recv: Some(Recv::GX) },
+        ActorD { name: "Outer.method(GO1)", pkg: PkgId::P, bp: BP_OUTER, recv: Some(Recv::GO1) },
+        ActorD { name: "Outer.method(GO2)", pkg: PkgId::P, bp: BP_OUTER, recv: Some(Recv::GO2) },
+        ActorD { name: "Inner.method(under GO1)", pkg: PkgId::P, bp: BP_INNER, recv: Some(Recv::InnerOfGO1) },
+        ActorD { name: "Inner2.method(under GO1)", pkg: PkgId::P, bp: BP_INNER2, recv: Some(Recv::InnerOfGO1) },
+    ]
+}
+
+fn victims() -> Vec<VictimD> {
+    vec![
+        VictimD::Obj { pkg: PkgId::P, bp: BP_A, outer: None, moved_into_kv: false },
+        VictimD::Obj { pkg: PkgId::P, bp: BP_A, outer: None, moved_into_kv: true },
+        VictimD::Obj { pkg: PkgId::Q, bp: BP_X, outer: None, moved_into_kv: false },
+        VictimD::Obj { pkg: PkgId::P, bp: BP_INNER, outer: Some(1), moved_into_kv: false },
+        VictimD::Bucket,
+        VictimD::Proof,
+        VictimD::Reservation { pkg: PkgId::P, bp: BP_A },
+        VictimD::Reservation { pkg: PkgId::Q, bp: BP_X },
+        VictimD::GlobalComp { pkg: PkgId::P, bp: BP_A },
+        VictimD::Account,
+        VictimD::OwnAuthZone,
+    ]
+}
+
+impl ActorD {
+    /// the global object that is this actor's instance context (what `new_object` / `drop_object` compare with)
+    fn outer_instance(&self) -> Option<u8> {
+        match self.recv {
+            Some(Recv::GO1) | Some(Recv::InnerOfGO1) => Some(1),
+            Some(Recv::GO2) => Some(2),
+            _ => None,
+        }
+    }
+    fn is_method(&self) -> bool {
+        self.recv.is_some()
+    }
+    fn is_inner(&self) -> bool {
+        self.bp == BP_INNER || self.bp == BP_INNER2
+    }
+}
+
+fn blueprint_exists(pkg: PkgId, bp: &str) -> bool {
+    match pkg {
+        PkgId::P => p_blueprints().contains(&bp),
+        PkgId::Q => bp == BP_X,
+        _ => false,
+    }
+}
+
+/// the reference policy
+fn policy(a: &ActorD, v: &VictimD, k: K, alive: bool) -> Verdict {
+    use Verdict::*;
+    match k {
+        K::Drop => {
+            if !alive {
+                return Neutral;
+            }
+            match v {
+                VictimD::Proof => Required("proof-drop-by-holder"),
+                VictimD::Obj { pkg, bp, outer, .. } => {
+                    let own_bp = a.pkg == *pkg && a.bp == *bp;
+                    let is_outer_object = outer.is_some() && a.bp == BP_OUTER && a.is_method() && a.outer_instance() == *outer;
+                    if own_bp || is_outer_object {
+                        Permitted
+                    } else if outer.is_some() && a.is_inner() && a.outer_instance() == *outer {
+                        // sibling inner blueprint running inside the same outer instance (how vaults drop buckets)
+                        Info("drop-by-sibling-inner-blueprint-of-same-outer")
+                    } else {
+                        Forbidden("drop-foreign-object")
+                    }
+                }
+                VictimD::Bucket => Forbidden("drop-bucket"),
+                VictimD::Reservation { .. } => Forbidden("drop-reservation"),
+                VictimD::GlobalComp { .. } => Forbidden("drop-global-component"),
+                VictimD::Account => Forbidden("drop-account"),
+                VictimD::OwnAuthZone => Forbidden("drop-auth-zone"),
+            }
+        }
+        K::Globalize | K::GlobalizeWithOwnReservation => {
+            if !alive {
+                return Neutral;
+            }
+            match v {
+                VictimD::Obj { pkg, bp, moved_into_kv, .. } => {
+                    if *moved_into_kv {
+                        // not owned by the frame any more: must not be globalizable at all
+                        Forbidden("globalize-object-owned-by-a-substate")
+                    } else if a.pkg != *pkg {
+                        Forbidden("globalize-foreign-package-object")
+                    } else if a.bp != *bp {
+                        Info("globalize-by-sibling-blueprint-of-same-package")
+                    } else {
+                        Permitted
+                    }
+                }
+                VictimD::Bucket => Forbidden("globalize-bucket"),
+                VictimD::Proof => Forbidden("globalize-proof"),
+                VictimD::Reservation { .. } => Forbidden("globalize-reservation"),
+                VictimD::GlobalComp { .. } => Forbidden("globalize-global-component"),
+                VictimD::Account => Forbidden("globalize-account"),
+                VictimD::OwnAuthZone => Forbidden("globalize-auth-zone"),
+            }
+        }
+        K::UseAsReservation => match v {
+            VictimD::Reservation { pkg, bp } if alive => {
+                if a.is_inner() {
+                    Neutral // the helper new_object of an inner actor needs its outer; not the subject here
+                } else if a.pkg != *pkg {
+                    Forbidden("use-foreign-package-reservation")
+                } else if a.bp != *bp {
+                    Info("use-reservation-of-sibling-blueprint")
+                } else {
+                    Permitted
+                }
+            }
+            _ => Neutral,
+        },
+        K::NewObjectOfVictimBp => new_object_policy(a, &victim_bp_name(v)),
+        K::NewInner => new_object_policy(a, BP_INNER),
+        K::CallVictimMethod => Neutral,
+        K::OpenSelf | K::OpenSelfKv => {
+            if a.is_method() {
+                Permitted
+            } else {
+                Forbidden("function-actor-opened-object-state")
+            }
+        }
+        K::OpenOuter | K::OpenOuterKv => {
+            if a.is_inner() {
+                Info("inner-blueprint-opens-outer-state(documented)")
+            } else {
+                Forbidden("non-inner-actor-opened-outer-state")
+            }
+        }
+        K::TypeQuery => Neutral,
+    }
+}
+
+fn victim_bp_name(v: &VictimD) -> String {
+    match v {
+        VictimD::Obj { bp, .. } | VictimD::Reservation { bp, .. } | VictimD::GlobalComp { bp, .. } => bp.to_string(),
+        VictimD::Bucket => FUNGIBLE_BUCKET_BLUEPRINT.to_string(),
+        VictimD::Proof => FUNGIBLE_PROOF_BLUEPRINT.to_string(),
+        VictimD::Account => ACCOUNT_BLUEPRINT.to_string(),
+        VictimD::OwnAuthZone => AUTH_ZONE_BLUEPRINT.to_string(),
+    }
+}
+
+fn new_object_policy(a: &ActorD, name: &str) -> Verdict {
+    use Verdict::*;
+    if !blueprint_exists(a.pkg, name) {
+        return Forbidden("new-object-of-blueprint-not-in-own-package");
+    }
+    let target_inner = name == BP_INNER || name == BP_INNER2;
+    if target_inner {
+        let by_outer_object = a.bp == BP_OUTER && a.is_method();
+        let by_own_bp_inside_outer = a.bp == name && a.outer_instance().is_some();
+        if by_outer_object || by_own_bp_inside_outer {
+            Permitted
+        } else if a.is_inner() && a.outer_instance().is_some() {
+            Info("inner-object-created-by-sibling-inner-blueprint")
+        } else {
+            Forbidden("inner-object-created-outside-its-outer-object")
+        }
+    } else if a.bp == name {
+        Permitted
+    } else {
+        Info("new-object-of-sibling-blueprint-of-same-package")
+    }
+}
+
+/// script under construction for the actor frame
+#[derive(Default, Clone)]
+struct SB {
+    ops: Vec<Op>,
+    regs: u8,
+    handles: u8,
+    /// for every abstract op: index (in `ops`) of its decisive concrete op
+    decisive: Vec<usize>,
+}
+
+impl SB {
+    fn push(&mut self, op: Op) -> usize {
+        match &op {
+            Op::NewObject { .. } | Op::NewKvStore | Op::Globalize { .. } | Op::FieldReadOwn(_) | Op::CallRawReturningNode { .. } => self.regs += 1,
+            Op::AllocAddress { .. } => self.regs += 2,
+            Op::OpenField { .. } | Op::OpenKvColl { .. } | Op::OpenKvStore { .. } => self.handles += 1,
+            _ => {}
+        }
+        self.ops.push(op);
+        self.ops.len() - 1
+    }
+}
+
+fn pkg_addr(w: &W50, p: PkgId) -> PackageAddress {
+    match p {
+        PkgId::P => w.pkg_p,
+        PkgId::Q => w.pkg_q,
+        PkgId::Resource => RESOURCE_PACKAGE,
+        PkgId::Other => ACCOUNT_PACKAGE,
+    }
+}
+
+/// expand an abstract op into concrete ops (victim = `vn`)
+fn expand(w: &W50, a: &ActorD, v: &VictimD, k: K, vn: &N, sb: &mut SB) {
+    let cfg = GlobalizeCfg::simple(OwnerRole::None);
+    let idx = match k {
+        K::Drop => sb.push(Op::Drop(vn.clone())),
+        K::Globalize => sb.push(Op::Globalize { node: vn.clone(), reservation: None, cfg }),
+        K::GlobalizeWithOwnReservation => {
+            let (pkg, bp) = match v {
+                VictimD::Obj { pkg, bp, .. } | VictimD::GlobalComp { pkg, bp } | VictimD::Reservation { pkg, bp } => (pkg_addr(w, *pkg), bp.to_string()),
+                VictimD::Bucket | VictimD::Proof => (RESOURCE_PACKAGE, if *v == VictimD::Bucket { FUNGIBLE_BUCKET_BLUEPRINT.to_string() } else { FUNGIBLE_PROOF_BLUEPRINT.to_string() }),
+                VictimD::Account => (ACCOUNT_PACKAGE, ACCOUNT_BLUEPRINT.to_string()),
+                VictimD::OwnAuthZone => (RESOURCE_PACKAGE, AUTH_ZONE_BLUEPRINT.to_string()),
+            };
+            sb.push(Op::AllocAddress { pkg: Pkg::Other(pkg), bp });
+            let res = sb.regs - 2;
+            sb.push(Op::Globalize { node: vn.clone(), reservation: Some(N::Reg(res)), cfg })
+        }
+        K::UseAsReservation => {
+            sb.push(Op::NewObject { bp: a.bp.to_string(), lock0: false });
+            let obj = sb.regs - 1;
+            sb.push(Op::Globalize { node: N::Reg(obj), reservation: Some(vn.clone()), cfg })
+        }
+        K::NewObjectOfVictimBp => {
+            let name = victim_bp_name(v);
+            let permitted = new_object_policy(a, &name) == Verdict::Permitted;
+            let i = sb.push(Op::NewObject { bp: name, lock0: false });
+            if permitted {
+                // the creator may drop its own object again: keeps the transaction committable
+                sb.push(Op::Drop(N::Reg(sb.regs - 1)));
+            }
+            i
+        }
+        K::NewInner => {
+            let permitted = new_object_policy(a, BP_INNER) == Verdict::Permitted;
+            let i = sb.push(Op::NewObject { bp: BP_INNER.to_string(), lock0: false });
+            if permitted {
+                sb.push(Op::Drop(N::Reg(sb.regs - 1)));
+            }
+            i
+        }
+        K::CallVictimMethod => sb.push(Op::CallProbeMethod {
+            recv: vn.clone(),
+            method: "call".into(),
+            script: vec![Op::OpenField { obj: 0, idx: 0, mutable: true }, Op::FieldWrite(0, Val::Str("written-through-own-method".into())), Op::FieldClose(0)],
+            pass: vec![],
+        }),
+        K::OpenSelf | K::OpenOuter => {
+            let i = sb.push(Op::OpenField { obj: if k == K::OpenSelf { 0 } else { 1 }, idx: 0, mutable: false });
+            let h = sb.handles - 1;
+            sb.decisive.push(i);
+            sb.push(Op::FieldRead(h));
+            sb.push(Op::FieldClose(h));
+            return;
+        }
+        K::OpenSelfKv | K::OpenOuterKv => {
+            let i = sb.push(Op::OpenKvColl { obj: if k == K::OpenSelfKv { 0 } else { 1 }, coll: 0, key: "k".into(), mutable: false });
+            let h = sb.handles - 1;
+            sb.decisive.push(i);
+            sb.push(Op::KvGet(h));
+            sb.push(Op::KvClose(h));
+            return;
+        }
+        K::TypeQuery => sb.push(Op::GetBlueprintId(vn.clone())),
+    };
+    sb.decisive.push(idx);
+}
+
+struct Built {
+    manifest: TransactionManifestV1,
+    actor_depth: u8,
+    sb: SB,
+}
+
+fn consuming(k: K) -> bool {
+    matches!(k, K::Drop | K::Globalize | K::GlobalizeWithOwnReservation | K::UseAsReservation)
+}
+
+/// the whole transaction for (actor, victim, abstract script)
+fn build(w: &W50, a: &ActorD, v: &VictimD, script: &[K]) -> Built {
+    // ---- actor frame script
+    let mut sb = SB::default();
+    let vn = if *v == VictimD::OwnAuthZone { N::Actor(8) } else { N::Arg(0) };
+    let moved = matches!(v, VictimD::Obj { moved_into_kv: true, .. });
+    if moved {
+        // move the victim into an entry of an own key-value store and keep the entry open (the node stays visible)
+        sb.push(Op::NewKvStore);
+        sb.push(Op::OpenKvStore { store: N::Reg(0), key: "k".into(), mutable: true });
+        sb.push(Op::KvSet(0, Val::Own(N::Arg(0))));
+    }
+    for k in script {
+        expand(w, a, v, *k, &vn, &mut sb);
+    }
+    // clean end for scripts that leave the victim alone: hand it back to whoever provided it
+    let untouched = !script.iter().any(|k| consuming(*k));
+    let returnable = matches!(v, VictimD::Obj { moved_into_kv: false, .. } | VictimD::Bucket);
+    let mut actor_ops = sb.ops.clone();
+    if untouched && returnable {
+        actor_ops.push(Op::Return(vec![N::Arg(0)]));
+    }
+
+    let actor_pkg = pkg_addr(w, a.pkg);
+    let global_recv = |r: Recv| match r {
+        Recv::GA => w.ga,
+        Recv::GB => w.gb,
+        Recv::GX => w.gx,
+        Recv::GO1 | Recv::InnerOfGO1 => w.go1,
+        Recv::GO2 => w.go2,
+    };
+    let mb = ManifestBuilder::new().lock_fee(w.acct, 50);
+    match v {
+        VictimD::Obj { pkg, bp, outer, .. } => {
+            // driver frame (depth 0): a function of the victim's blueprint — or a method of GO1 when the victim or the
+            // actor is an inner object — creates the victim and hands it (Own) to the actor (depth 1)
+            let mut d: Vec<Op> = vec![Op::NewObject { bp: bp.to_string(), lock0: false }];
+            let pass = vec![Pass::Own(N::Reg(0))];
+            let mut recv_arg: Option<ComponentAddress> = None;
+            let mut inner_actor_reg: Option<u8> = None;
+            match a.recv {
+                None => d.push(Op::CallProbeFunction { pkg: Pkg::Other(actor_pkg), bp: a.bp.to_string(), func: "run".into(), script: actor_ops, pass }),
+                Some(Recv::InnerOfGO1) => {
+                    d.push(Op::NewObject { bp: a.bp.to_string(), lock0: false });
+                    inner_actor_reg = Some(1);
+                    d.push(Op::CallProbeMethod { recv: N::Reg(1), method: "call".into(), script: actor_ops, pass });
+                }
+                Some(r) => {
+                    recv_arg = Some(global_recv(r));
+                    d.push(Op::CallProbeMethod { recv: N::Arg(0), method: "call".into(), script: actor_ops, pass });
+                }
+            }
+            if let Some(r) = inner_actor_reg {
+                d.push(Op::Drop(N::Reg(r)));
+            }
+            if untouched && !moved {
+                d.push(Op::Drop(N::Reg(0)));
+            }
+            let driver_is_go1 = outer.is_some() || a.recv == Some(Recv::InnerOfGO1);
+            let bytes = script_bytes(&d);
+            let manifest = if driver_is_go1 {
+                match recv_arg {
+                    Some(r) => mb.call_method(w.go1, "call", manifest_args!(bytes, r)),
+                    None => mb.call_method(w.go1, "call", manifest_args!(bytes)),
+                }
+            } else {
+                match recv_arg {
+                    Some(r) => mb.call_function(pkg_addr(w, *pkg), *bp, "run", manifest_args!(bytes, r)),
+                    None => mb.call_function(pkg_addr(w, *pkg), *bp, "run", manifest_args!(bytes)),
+                }
+            }
+            .build();
+            Built { manifest, actor_depth: 1, sb }
+        }
+        _ => {
+            // victims that come from the manifest; an inner actor needs a GO1 driver frame in between
+            let with_victim = |mb: ManifestBuilder, f: &dyn Fn(ManifestBuilder, Option<ManifestArgKind>) -> ManifestBuilder| -> ManifestBuilder {
+                match v {
+                    VictimD::Bucket => f(mb.withdraw_from_account(w.acct, w.g, dec!(3)).take_all_from_worktop(w.g, "v"), Some(ManifestArgKind::Bucket)),
+                    VictimD::Proof => f(mb.create_proof_from_account_of_amount(w.acct, w.g, dec!(3)).pop_from_auth_zone("v"), Some(ManifestArgKind::Proof)),
+                    VictimD::Reservation { pkg, bp } => f(mb.allocate_global_address(pkg_addr(w, *pkg), *bp, "v", "v_addr"), Some(ManifestArgKind::Reservation)),
+                    VictimD::GlobalComp { .. } => f(mb, Some(ManifestArgKind::Address(w.ga.into()))),
+                    VictimD::Account => f(mb, Some(ManifestArgKind::Address(w.acct.into()))),
+                    _ => f(mb, None),
+                }
+            };
+            let (m, depth) = match a.recv {
+                Some(Recv::InnerOfGO1) => {
+                    let pass = if *v == VictimD::OwnAuthZone {
+                        vec![]
+                    } else if matches!(v, VictimD::GlobalComp { .. } | VictimD::Account) {
+                        vec![Pass::Ref(N::Arg(0))]
+                    } else {
+                        vec![Pass::Own(N::Arg(0))]
+                    };
+                    let mut d = vec![
+                        Op::NewObject { bp: a.bp.to_string(), lock0: false },
+                        Op::CallProbeMethod { recv: N::Reg(0), method: "call".into(), script: actor_ops.clone(), pass },
+                        Op::Drop(N::Reg(0)),
+                    ];
+                    if untouched && *v == VictimD::Bucket {
+                        d.push(Op::Return(vec![N::Arg(0)]));
+                    }
+                    let bytes = script_bytes(&d);
+                    let go1 = w.go1;
+                    (with_victim(mb, &|mb, kind| call_with(mb, Target::Method(go1), bytes.clone(), kind)), 1)
+                }
+                Some(r) => {
+                    let c = global_recv(r);
+                    let bytes_actor = script_bytes(&actor_ops);
+                    (with_victim(mb, &|mb, kind| call_with(mb, Target::Method(c), bytes_actor.clone(), kind)), 0)
+                }
+                None => {
+                    let bp = a.bp;
+                    let bytes_actor = script_bytes(&actor_ops);
+                    (with_victim(mb, &|mb, kind| call_with(mb, Target::Function(actor_pkg, bp), bytes_actor.clone(), kind)), 0)
+                }
+            };
+            Built { manifest: m.deposit_entire_worktop(w.acct).build(), actor_depth: depth, sb }
+        }
+    }
+}
+
+#[derive(Clone)]
+enum ManifestArgKind {
+    Bucket,
+    Proof,
+    Reservation,
+    Address(GlobalAddress),
+}
+
+enum Target {
+    Method(ComponentAddress),
+    Function(PackageAddress, &'static str),
+}
+
+fn call_with(mb: ManifestBuilder, t: Target, bytes: Vec<u8>, kind: Option<ManifestArgKind>) -> ManifestBuilder {
+    mb.with_name_lookup(|b, lookup| {
+        macro_rules! go {
+            ($args:expr) => {
+                match t {
+                    Target::Method(c) => b.call_method(c, "call", $args),
+                    Target::Function(p, bp) => b.call_function(p, bp, "run", $args),
+                }
+            };
+        }
+        match kind {
+            None => go!(manifest_args!(bytes)),
+            Some(ManifestArgKind::Bucket) => go!(manifest_args!(bytes, lookup.bucket("v"))),
+            Some(ManifestArgKind::Proof) => go!(manifest_args!(bytes, lookup.proof("v"))),
+            Some(ManifestArgKind::Reservation) => go!(manifest_args!(bytes, lookup.address_reservation("v"))),
+            Some(ManifestArgKind::Address(a)) => go!(manifest_args!(bytes, a)),
+        }
+    })
+}
+
+fn applicable(a: &ActorD, v: &VictimD) -> bool {
+    // victims created by a driver of their own blueprint: the driver must be able to call the actor; an inner actor
+    // can only be created by GO1, which can create victims of package P only
+    match (a.recv, v) {
+        (Some(Recv::InnerOfGO1), VictimD::Obj { pkg, .. }) => *pkg == PkgId::P,
+        // an inner victim is created by GO1; if the actor is GO1 itself the driver would re-enter GO1 (reentrancy is
+        // refused by the engine): use GO2 / others for those pairings, and the inner actors (created inside GO1)
+        (Some(Recv::GO1), VictimD::Obj { outer: Some(_), .. }) => true,
+        _ => true,
+    }
+}
+
+fn run_case(w: &W50, a: &ActorD, v: &VictimD, script: &[K], l: &mut Local, full_check: &std::sync::atomic::AtomicU64) -> Option<bool> {
+    let built = build(w, a, v, script);
+    let (mut sim, probe) = probe_sim_from(&w.snap);
+    let receipt = match exec(&mut sim, built.manifest.clone(), vec![]) {
+        Ok(r) => r,
+        Err(p) => {
+            l.violation(format!("panic@{}", mc_core::last_panic_location()), format!("{} on {v:?} script {script:?} panicked: {p}", a.name), json!({"actor": a.name, "victim": format!("{v:?}"), "script": format!("{script:?}")}));
+            return None;
+        }
+    };
+    let log = probe.take_log();
+    let committed = is_success(&receipt);
+    // entries of the actor frame, in order, = a prefix of the concrete ops
+    let actor_entries: Vec<&LogEntry> = log.iter().filter(|e| e.depth == built.actor_depth && e.blueprint == a.bp).collect();
+    // judge the last abstract op only (its prefix was judged by the shorter script)
+    let last = script.len() - 1;
+    let decisive_idx = built.sb.decisive[last];
+    let case = || json!({"actor": a.name, "victim": format!("{v:?}"), "script": format!("{script:?}"), "receipt": receipt_class(&receipt), "log": log.iter().map(|e| format!("{}:{}:{}:{:?}", e.depth, e.blueprint, e.op, e.result)).collect::<Vec<_>>()});
+    let result: Option<Result<String, String>> = actor_entries.get(decisive_idx).map(|e| e.result.clone());
+    // victim liveness before the last op: an earlier successful drop / globalize of the victim consumed it
+    let alive = !script[..last].iter().any(|k| consuming(*k));
+    let verdict = policy(a, v, script[last], alive);
+    l.eval();
+    let ok = matches!(result, Some(Ok(_)));
+    let label = format!("{:?}", script[last]);
+    match (&verdict, &result) {
+        (_, None) => {
+            // the decisive op was not reached (a helper op or the provisioning failed)
+            l.class(&format!("{label}:not-reached"));
+        }
+        (Verdict::Forbidden(key), Some(Ok(s))) => {
+            l.violation(format!("forbidden-op-succeeded:{key}"), format!("{} performed {label} on {v:?} successfully ({s}); script {script:?}", a.name), case());
+        }
+        (Verdict::Forbidden(_), Some(Err(e))) => l.class(&format!("{label}:forbidden→refused:{e}")),
+        (Verdict::Required(key), Some(Err(e))) => {
+            l.violation(format!("required-op-refused:{key}"), format!("{} could not perform {label} on {v:?}: {e}", a.name), case());
+        }
+        (Verdict::Required(_), Some(Ok(_))) => l.class(&format!("{label}:required→done")),
+        (Verdict::Info(key), Some(r)) => {
+            l.info(&format!("{key}:{}", if r.is_ok() { "accepted".to_string() } else { r.clone().unwrap_err() }));
+            l.class(&format!("{label}:informational"));
+        }
+        (Verdict::Permitted, Some(Ok(_))) => l.class(&format!("{label}:permitted→done")),
+        (Verdict::Permitted, Some(Err(e))) => l.class(&format!("{label}:permitted→refused:{e}")),
+        (Verdict::Neutral, Some(r)) => l.class(&format!("{label}:not-judged:{}", if r.is_ok() { "ok" } else { "err" })),
+    }
+    l.sample(case);
+    // state oracle on commit: the global components' own state is untouched unless written through their own method
+    if committed {
+        for (c, bytes) in &w.root_state {
+            let legit = script.contains(&K::CallVictimMethod) && matches!(v, VictimD::GlobalComp { .. }) && *c == w.ga;
+            if legit {
+                continue;
+            }
+            let now = sim.substate_db().get_raw_substate(c.as_node_id(), MAIN_BASE_PARTITION, SubstateKey::Field(0));
+            if &now != bytes {
+                l.violation("foreign-state-changed", format!("field 0 of {c:?} changed by script {script:?} of {}", a.name), case());
+            }
+        }
+        // engine checkers on a bounded number of committed, structure-changing scripts
+        let structural = script.iter().any(|k| matches!(k, K::Globalize | K::GlobalizeWithOwnReservation | K::UseAsReservation | K::NewObjectOfVictimBp | K::NewInner));
+        if structural && full_check.fetch_add(1, std::sync::atomic::Ordering::Relaxed) < 400 {
+            if let Err(e) = check_database_quiet(&sim, false, false) {
+                l.violation("engine-checker", format!("database checker failed after script {script:?} of {} on {v:?}: {e}", a.name), case());
+            } else {
+                l.class("committed+engine-checkers-ok");
+            }
+        }
+    }
+    Some(ok)
+}
+
+pub fn run(ctx: Ctx) -> ! {
+    let w = build_world();
+    let max_len = ctx.pick(2usize, 3usize);
+    let acts = actors();
+    let vics = victims();
+    let mut pairings: Vec<(usize, usize)> = vec![];
+    for (ai, a) in acts.iter().enumerate() {
+        for (vi, v) in vics.iter().enumerate() {
+            if applicable(a, v) {
+                pairings.push((ai, vi));
+            }
+        }
+    }
+    let full_check = std::sync::atomic::AtomicU64::new(0);
+    let scripts_run = std::sync::atomic::AtomicU64::new(0);
+    // work items: (pairing, first op) so that the sweep parallelises well
+    let mut work: Vec<(usize, usize, K)> = vec![];
+    for (ai, vi) in &pairings {
+        for k in ALPHABET {
+            work.push((*ai, *vi, k));
+        }
+    }
+    if let Some(case) = ctx.read_replay_case() {
+        let actor = case.get("actor").and_then(|x| x.as_str()).unwrap_or("").to_string();
+        let victim = case.get("victim").and_then(|x| x.as_str()).unwrap_or("").to_string();
+        let script = case.get("script").and_then(|x| x.as_str()).unwrap_or("").to_string();
+        let mut l = Local::new();
+        for a in &acts {
+            for v in &vics {
+                if a.name == actor && format!("{v:?}") == victim {
+                    // re-run every script of the alphabet up to the length and pick the matching rendering
+                    let mut stack: Vec<Vec<K>> = ALPHABET.iter().map(|k| vec![*k]).collect();
+                    while let Some(s) = stack.pop() {
+                        if format!("{s:?}") == script {
+                            run_case(&w, a, v, &s, &mut l, &full_check);
+                        } else if s.len() < 3 && script.starts_with(format!("{s:?}").trim_end_matches(']')) {
+                            for k in ALPHABET {
+                                let mut n = s.clone();
+                                n.push(k);
+                                stack.push(n);
+                            }
+                        }
+                    }
+                }
+            }
+        }
+        for v in &l.violations {
+            println!("replayed: {}: {}", v.key, v.what);
+        }
+        ctx.merge(l);
+        ctx.finish(Level::ModelChecking, "replay", 0, false, Map::new(), &[]);
+    }
+    par_for(&ctx, &work, |(ai, vi, first), l| {
+        let (a, v) = (&acts[*ai], &vics[*vi]);
+        // depth-first over extensions of the scripts whose last op succeeded (a failing op aborts the invocation)
+        let mut stack: Vec<Vec<K>> = vec![vec![*first]];
+        while let Some(s) = stack.pop() {
+            scripts_run.fetch_add(1, std::sync::atomic::Ordering::Relaxed);
+            let ok = run_case(&w, a, v, &s, l, &full_check);
+            if ok == Some(true) && s.len() < max_len {
+                for k in ALPHABET.iter().rev() {
+                    let mut n = s.clone();
+                    n.push(*k);
+                    stack.push(n);
+                }
+            }
+        }
+    });
+    let classes = ctx.classes();
+    let refused: u64 = classes.iter().filter(|(k, _)| k.contains("forbidden→refused")).map(|(_, n)| *n).sum();
+    let done: u64 = classes.iter().filter(|(k, _)| k.contains("permitted→done") || k.contains("required→done")).map(|(_, n)| *n).sum();
+    if !ctx.has_violations() && (refused == 0 || done == 0) {
+        mc_core::machinery_error(&format!("C50: vacuous: forbidden-and-refused={refused}, permitted-and-done={done}"));
+    }
+    let n_scripts = scripts_run.load(std::sync::atomic::Ordering::Relaxed);
+    let mut cov = Map::new();
+    cov.insert("states".into(), json!(n_scripts));
+    cov.insert("transitions".into(), json!(ctx.evals()));
+    cov.insert("traces_validated_against_impl".into(), json!(n_scripts));
+    cov.insert("programs".into(), json!(n_scripts));
+    cov.insert("pairings".into(), json!(pairings.len()));
+    cov.insert("actors".into(), json!(acts.iter().map(|a| a.name).collect::<Vec<_>>()));
+    cov.insert("victims".into(), json!(vics.iter().map(|v| format!("{v:?}")).collect::<Vec<_>>()));
+    cov.insert("alphabet".into(), json!(ALPHABET.iter().map(|k| format!("{k:?}")).collect::<Vec<_>>()));
+    cov.insert("max_script_length".into(), json!(max_len));
+    cov.insert("forbidden_and_refused".into(), json!(refused));
+    ctx.finish(
+        Level::ModelChecking,
+        "every sequence of ≤ L abstract system-API operations per (actor, victim) pairing, prefix-pruned at the first failing operation, each executed as a real transaction through the native Probe blueprints; every operation result compared with the reference encapsulation policy; committed scripts: global components' state compared with the root, engine database checkers on structure-changing scripts; non-trivial = forbidden operations that were attempted and refused",
+        refused,
+        true,
+        cov,
+        &[
+            "a blueprint can only reach other nodes' state through the actor handles SELF/OUTER and through nodes it owns or borrows; references to non-global nodes cannot be passed as arguments (kernel rule), so 'held only by reference' victims are the object moved into an own key-value entry, the global component, the account and the actor's own auth zone",
+            "vault victims (direct-access references) are not enumerated",
+            "same-package cross-blueprint create/globalize, inner→outer state access and sibling-inner-blueprint drop are informational",
+            "only the SystemApi surface is scripted (kernel-level calls available to native code are out of scope)",
+        ],
+    )
 }
